@@ -84,6 +84,29 @@ Theorem C20_anb_parse_whitespace : forall cs,
 Proof. exact parse_an_b_ignores_whitespace. Qed.
 Print Assumptions C20_anb_parse_whitespace.
 
+(* 3c. the short forms: B alone, An, [sign] n, [sign] n (+|-) B *)
+Theorem C20_anb_parse_b_only : forall sa d ds,
+  Forall isd (d :: ds) -> (dval (d :: ds) 0 <= i32_max)%Z ->
+  parse_an_b (osgnc sa ++ map dch (d :: ds)) = AnbOk 0 (dval (d :: ds) 0 * osgnz sa)%Z.
+Proof. exact parse_an_b_b_only. Qed.
+Print Assumptions C20_anb_parse_b_only.
+
+Theorem C20_anb_parse_an_only : forall sa d ds,
+  Forall isd (d :: ds) -> (dval (d :: ds) 0 <= i32_max)%Z ->
+  parse_an_b (osgnc sa ++ map dch (d :: ds) ++ [110%N]) = AnbOk (osgnz sa * dval (d :: ds) 0)%Z 0.
+Proof. exact parse_an_b_an_only. Qed.
+Print Assumptions C20_anb_parse_an_only.
+
+Theorem C20_anb_parse_n_b : forall sa sb d ds,
+  Forall isd (d :: ds) -> (dval (d :: ds) 0 <= i32_max)%Z ->
+  parse_an_b (osgnc sa ++ [110%N] ++ [sgnc sb] ++ map dch (d :: ds)) = AnbOk (osgnz sa) (dval (d :: ds) 0 * sgnz sb)%Z.
+Proof. exact parse_an_b_n_b. Qed.
+Print Assumptions C20_anb_parse_n_b.
+
+Theorem C20_anb_parse_n_only : forall sa, parse_an_b (osgnc sa ++ [110%N]) = AnbOk (osgnz sa) 0.
+Proof. exact parse_an_b_n_only. Qed.
+Print Assumptions C20_anb_parse_n_only.
+
 (* 4. substring follows Python slice semantics on characters, for all i32 (indeed all integer) bounds *)
 Theorem C20_substring : forall (A : Type) (chars : list A) (s e : option Z),
   substring chars s e = python_slice chars s e.
